@@ -531,6 +531,17 @@ def _pair_prim(P, name):
     return hits[0] if len(hits) == 1 else None
 
 
+def _unit_evidence(used):
+    """the column of a Pos is a character column (pest's line_col()); message when it is computed from byte offsets only"""
+    byteish = used & {"start", "end", "len", "rfind", "find", "as_bytes", "bytes", "pos", "start_pos", "end_pos", "offset", "byte_offset",
+                      "match_indices", "rmatch_indices"}
+    charish = used & {"line_col", "chars", "char_indices", "graphemes", "width", "encode_utf16"}
+    if byteish and not charish:
+        return ("to_pos computes the column from byte offsets (%s) instead of pest's line_col(): for a token preceded on its line by a "
+                "non-ASCII character the column counts UTF-8 bytes, not characters, so the position is not the true one" % sorted(byteish))
+    return None
+
+
 def _pos_conversion(P, tp):
     """("ok" | "bad" | "unknown", message) for the 1-based -> 0-based conversion in to_pos"""
     def strip(e):
@@ -586,6 +597,28 @@ def _pos_conversion(P, tp):
                 scan_lets(tp)
                 calls = [x for x in tp.walk() if x.get("k") == "Call" and (call_name(x) or "").endswith("base::Pos::new")]
                 break
+    if not calls:
+        # neither line_col() components nor a Pos::new here: the position is assembled by a helper from other quantities.  Follow the
+        # helper's column expression back to the arguments of this call and look at the unit they are measured in
+        from prov import canon_params
+        for c in tp.walk():
+            g = P.fns.get(call_name(c) or "") if c.get("k") == "Call" else None
+            if g is None or len(c["args"]) != len(g.params) or not (g.sig_output or "").endswith("base::Pos"):
+                continue
+            inner = [x for x in g.walk() if x.get("k") == "Call" and (call_name(x) or "").endswith("base::Pos::new")]
+            if len(inner) != 1 or len(inner[0]["args"]) != 2:
+                continue
+            pg = Prov(g)
+            col = pg.atoms(inner[0]["args"][1])
+            names = canon_params(g)
+            feeds = [i for i, nm in enumerate(names) if ("param", nm) in col]
+            used = {a[1].split("::")[-1] for a in col if a[0] == "call"}
+            pv = Prov(tp)
+            for i in feeds:
+                used |= {a[1].split("::")[-1] for a in pv.atoms(c["args"][i]) if a[0] == "call"}
+            verdict = _unit_evidence(used)
+            if verdict:
+                return "bad", verdict
     if len(calls) != 1 or len(calls[0]["args"]) != 2:
         return "unknown", "to_pos does not build its result with one Pos::new(line, column) call"
 
@@ -602,12 +635,9 @@ def _pos_conversion(P, tp):
         # (span.start(), str::len(), find/rfind indices) is a different unit as soon as a non-ASCII character precedes the token on its line
         pv = Prov(tp)
         used = {a[1].split("::")[-1] for a in pv.atoms(calls[0]["args"][1]) if a[0] == "call"}
-        byteish = used & {"start", "end", "len", "rfind", "find", "as_bytes", "bytes", "pos", "start_pos", "end_pos", "offset", "byte_offset",
-                          "match_indices", "rmatch_indices"}
-        charish = used & {"line_col", "chars", "char_indices", "graphemes", "width", "encode_utf16"}
-        if byteish and not charish:
-            return "bad", ("to_pos computes the column from byte offsets (%s) instead of pest's line_col(): for a token preceded on its line by a "
-                           "non-ASCII character the column counts UTF-8 bytes, not characters, so the position is not the true one" % sorted(byteish))
+        verdict = _unit_evidence(used)
+        if verdict:
+            return "bad", verdict
         return "unknown", "the arguments of Pos::new in to_pos are not `component - literal` of pair.line_col()"
     if a0 == (0, "1") and a1 == (1, "1"):
         return "ok", "Pos::new(line - 1, column - 1) from pair.line_col()"
